@@ -99,8 +99,7 @@ def fault_matrix(c):
     with the smallest failing document)"""
     import c07_faults
     vd = ensure_vdriver('hooks', units=['vd_run', 'vd_c07'])
-    with Lock('coq'):      # ExecFaults.vo is read by the evaluation of the model
-        return c07_faults.run_stream(vd, c.tier, coqdir=COQ, workdir=os.path.join(BUILD, 'c07-faults'))
+    return c07_faults.run_stream(vd, c.tier, coqdir=COQ, workdir=os.path.join(BUILD, 'c07-faults'))
 
 
 def malformed_stream(c):
